@@ -194,3 +194,56 @@ def typeis(eng, o, name):
 @spec
 def isfresh(eng, o):
     return getattr(o, "birth", 0) > eng.entry_alloc
+
+
+def _validity_parts(eng, cls):
+    """(needs_matvalid, 'bool'|'spin'|None for the <=2 distinct-label rule)"""
+    mat = not eng.db.is_subclass(cls, "BO")
+    spin = is_spin_class(eng, cls)
+    deg2 = eng.db.is_subclass(cls, "QUBOMatrix") or eng.db.is_subclass(cls, "QUSOMatrix")
+    return mat, spin, deg2
+
+
+@spec
+def keyvalid(eng, o, k):
+    """the key is accepted by the class of o (no KeyError from squash_key)"""
+    cls = _cls_of(eng, o)
+    mat, spin, deg2 = _validity_parts(eng, cls)
+    e = eng.as_key(k)
+    parts = []
+    if mat:
+        eng.facts.key(e)
+        parts.append(T.matvalid(e))
+    if deg2:
+        parts.append(z3.Length(eng.facts.sq(spin, e)) <= 2)
+    return SV(z3.And(*parts) if parts else z3.BoolVal(True), "bool")
+
+
+@spec
+def keysvalid(eng, o, d):
+    """every key of the dict d is accepted by the class of o"""
+    cls = _cls_of(eng, o)
+    mat, spin, deg2 = _validity_parts(eng, cls)
+    ver = eng.store_of(d)
+    parts = []
+    if mat:
+        parts.append(FO.fold(eng, ver, "valid_mat"))
+    if deg2:
+        parts.append(FO.fold(eng, ver, "valid_quso" if spin else "valid_qubo"))
+    return SV(z3.And(*parts) if parts else z3.BoolVal(True), "bool")
+
+
+@spec
+def den_as(eng, o, d):
+    """denotation of the dict/model d read in the domain (boolean/spin) of the class of o"""
+    cls = _cls_of(eng, o)
+    name = "sden" if is_spin_class(eng, cls) else "bden"
+    return SV(FO.fold(eng, eng.store_of(d), name), "real")
+
+
+@spec
+def mono_as(eng, o, k):
+    cls = _cls_of(eng, o)
+    e = eng.as_key(k)
+    eng.facts.key(e)
+    return SV(T.smono(e) if is_spin_class(eng, cls) else T.bmono(e), "real")
